@@ -81,6 +81,12 @@ fn check_cov(c: &CovCase, obs: &mut Obs) -> Result<(), String> {
         let mut expect: BTreeMap<usize, Vec<Vec<usize>>> = BTreeMap::new();
         let mut over = false;
         for j in 1..=c.k {
+            // the brute force enumerates all of S_j: 720 permutations at most; for the deep layer
+            // (bounds >= 6) it is only run up to 4 sheets, the rest is validity and irredundancy
+            if j > 6 || (c.k >= 6 && j > 4) {
+                over = true;
+                break;
+            }
             match cover_classes(x, &f, j, 3_000_000) {
                 Some(cl) => {
                     expect.insert(j, cl.into_iter().map(|(code, _)| code).collect());
@@ -104,20 +110,33 @@ fn check_cov(c: &CovCase, obs: &mut Obs) -> Result<(), String> {
             got.entry(j).or_default().push(canonical_voltages(&volt, j));
             nontrivial |= j >= 2 && has_feature;
         }
-        if !over {
+        for j in 1..=c.k {
+            let mut g = got.get(&j).cloned().unwrap_or_default();
+            g.sort();
+            let before = g.len();
+            g.dedup();
+            ensure!(g.len() == before, "covers({}, {}) lists two equivalent {}-sheeted covers (same conjugacy class of subgroups twice)", x.text(), c.k, j);
+        }
+        obs.classify(c.k >= 6, "deep sheet bound (>= 6): validity and irredundancy of every listed cover");
+        {
+            // every sheet number for which the brute force finished is compared in full
             for j in 1..=c.k {
                 let mut g = got.get(&j).cloned().unwrap_or_default();
-                let e = expect.get(&j).cloned().unwrap_or_default();
+                let e = match expect.get(&j) {
+                    Some(e) => e.clone(),
+                    None => continue,
+                };
                 g.sort();
-                let before = g.len();
-                g.dedup();
-                ensure!(g.len() == before, "covers({}, {}) lists two equivalent {}-sheeted covers (same conjugacy class of subgroups twice)", x.text(), c.k, j);
                 for code in &g {
                     ensure!(e.contains(code), "covers({}, {}) contains a {}-sheeted cover that the brute-force search over voltage assignments does not find", x.text(), c.k, j);
                 }
                 ensure!(g.len() == e.len(), "{} has {} classes of connected {}-sheeted covers (brute force over voltage assignments), covers() lists {}", x.text(), e.len(), j, g.len());
             }
-            obs.class("cover classes counted against brute force");
+            if !over {
+                obs.class("cover classes counted against brute force");
+            } else if !expect.is_empty() {
+                obs.class(&format!("cover classes counted against brute force up to {} sheets only", expect.len()));
+            }
         }
     }
 
@@ -187,6 +206,31 @@ pub const SUB_COV: Sub<CovCase> = Sub {
     journal: false,
 };
 
+/// Number of covers with <= k sheets if it is at most `limit`: a selection guard for the deep
+/// layer (a prefix of the crate's own low-index iterator; nothing is asserted about it here)
+fn cover_count_within(x: &DS, k: usize, limit: usize) -> Option<usize> {
+    let cp = crate_presentation(x, false).ok()?;
+    let rels: Vec<FreeWord> = cp.rels.iter().map(|w| fw(w)).collect();
+    let n = guarded(|| rust_dsymbols::fpgroups::cosets::coset_tables(cp.nr_gens, &rels, k).take(limit + 1).count()).ok()?;
+    if n <= limit {
+        Some(n)
+    } else {
+        None
+    }
+}
+
+/// deep layer: (symbol, largest sheet bound <= want with at most `limit` covers)
+fn deep_case(x: &DS, want: usize, limit: usize) -> Option<CovCase> {
+    let mut k = want;
+    while k >= 5 {
+        if cover_count_within(x, k, limit).is_some() {
+            return Some(CovCase { ds: x.clone(), k, words: vec![], universal: false });
+        }
+        k -= 1;
+    }
+    None
+}
+
 fn sheet_bound(x: &DS, want: usize) -> usize {
     // (k!)^g <= 5e6 where g = number of facet pairs outside a spanning tree
     let f = frame(x);
@@ -231,6 +275,43 @@ pub fn run(ctx: &mut Ctx) {
     ctx.run_par(&SUB_COV, cases, if complete { Some(&note) } else { None });
     if !complete {
         ctx.note(note);
+    }
+    // deep sheet bounds on small symbols: every listed cover must be a covering, none listed twice
+    ctx.layer("deep-sheet-bounds");
+    {
+        use rayon::prelude::*;
+        let mut cand: Vec<(DS, usize)> = vec![];
+        let want2 = [12usize, 12, 10, 9, 8, 6, 6];
+        for n in 1..=t.pick(6, 7) {
+            for ds in crate::gen::dsets::dsets_of_size(2, n) {
+                let vmax = if n <= 2 { 10 } else if n <= 4 { 5 } else { 3 };
+                let (syms, _) = assignments(&ds, vmax, t.pick(if n <= 2 { 64 } else { 12 }, 128));
+                for sym in syms {
+                    cand.push((sym, want2[n - 1]));
+                }
+            }
+        }
+        // the triangle and similar groups with degrees the assignment bound does not reach
+        for text in ["<1.1:1:1,1,1:3,7>", "<1.1:1:1,1,1:3,8>", "<1.1:1:1,1,1:4,5>", "<1.1:2:2,1 2,2:4,6>", "<1.1:2:2,1 2,2:3,8>", "<1.1:3:1 2 3,1 3,2 3:3 10,3>", "<1.1:3:1 2 3,1 3,2 3:4 8,3>", "<1.1:2:1 2,1 2,2:5 4,3>"] {
+            if let Some(x) = DS::parse(text) {
+                cand.push((x, 12));
+            }
+        }
+        let want3 = [8usize, 8, 6, 6];
+        for n in 1..=t.pick(3, 4) {
+            for ds in crate::gen::dsets::dsets_of_size(3, n) {
+                let (syms, _) = assignments(&ds, 3, t.pick(6, 32));
+                for sym in syms {
+                    cand.push((sym, want3[n - 1]));
+                }
+            }
+        }
+        let limit = t.pick(150, 600);
+        let total = cand.len();
+        let deep: Vec<CovCase> = cand.into_par_iter().filter_map(|(x, want)| deep_case(&x, want, limit)).collect();
+        ctx.note(format!("deep layer: {} of {} candidate symbols have at most {} covers within a sheet bound >= 5", deep.len(), total, limit));
+        let n = deep.len();
+        ctx.run_par(&SUB_COV, deep, Some(&format!("{} symbols (dim 2 size <= {}, dim 3 size <= {}, small branching) with the largest sheet bound in 5..=12 that yields at most {} covers", n, t.pick(6, 7), t.pick(3, 4), limit)));
     }
     ctx.layer("random");
     let pool = std::sync::Arc::new(dsets);
